@@ -420,3 +420,41 @@ def dict_method(fr, d, name, args, kwargs):
     if name == "copy":
         return dict(d)
     raise Unsupported(f"dict.{name}")
+
+
+# ----------------------------------------------------------------------------------
+# linear algebra kernels (opaque, matrix-term level)
+# ----------------------------------------------------------------------------------
+
+
+@model("numpy.linalg.qr")
+def _qr(fr, args, kwargs):
+    from . import matmodel
+    return matmodel.qr(N.asarray(args[0]), kwargs.get("mode", args[1] if len(args) > 1 else "reduced"))
+
+
+@model("numpy.linalg.svd")
+def _svd(fr, args, kwargs):
+    from . import matmodel
+    extra = set(kwargs) - {"full_matrices"}
+    if extra:
+        raise Unsupported(f"np.linalg.svd with keyword(s) {sorted(extra)} (not in the svd contract)")
+    return matmodel.svd(N.asarray(args[0]), kwargs.get("full_matrices", args[1] if len(args) > 1 else True))
+
+
+@model("numpy.linalg.inv")
+def _inv(fr, args, kwargs):
+    from . import matmodel
+    return matmodel.inv(N.asarray(args[0]))
+
+
+@model("numpy.linalg.pinv")
+def _pinv(fr, args, kwargs):
+    from . import matmodel
+    return matmodel.pinv(N.asarray(args[0]))
+
+
+@model("numpy.linalg.solve")
+def _solve(fr, args, kwargs):
+    from . import matmodel
+    return matmodel.solve(N.asarray(args[0]), N.asarray(args[1]))
